@@ -113,6 +113,8 @@ func Point(name string) {
 		runtime.Gosched()
 	case d == 3:
 		time.Sleep(time.Duration(delaySeed%200) * time.Microsecond)
+	case d == 4:
+		time.Sleep(time.Duration(delaySeed%3000) * time.Microsecond)
 	}
 }
 
